@@ -474,6 +474,10 @@ func (m *machine) ValidTransition(to *State) error {
 		return newError(fmt.Sprintf("new state's App doesn't match: %v", err))
 	}
 
+	if m.currentTX.State == nil {
+		return newError("no current state to advance from")
+	}
+
 	if m.currentTX.IsFinal {
 		return newError("cannot advance final state")
 	}
